@@ -1,11 +1,12 @@
 import BppModel.Tree
+import BppModel.GraphOrient
 /-
 Model of src/Bpp/Graph/DAGraphImpl.h instantiated at GlobalGraph (`DAGlobalGraph`): the graph of
 `BppModel/Graph.lean` plus the two cached flags `isValid_` (:30) and `isRooted_` (:37).  Both are
 reset by the virtual `topologyHasChanged_()` (:360), which every structure-modifying primitive of
 GlobalGraph ends with; `isValid_` is written by `validate_` (:353) from `GlobalGraph::isDA`
 (GlobalGraph.cpp:691: repeated removal of the son-less nodes on a copy), `isRooted_` by `isRooted`
-(:229).  Not modelled: `rootAt` / `propagateDirection_` / `GlobalGraph::orientate`.
+(:229); `rootAt` (:408) with `propagateDirection_` (:424) and `GlobalGraph::orientate` (BppModel/GraphOrient.lean).
 Line numbers: the library worktree with its `fix:` commits.
 -/
 namespace Bpp.Graph
@@ -159,6 +160,59 @@ def getBelow (edges : Bool) (d : D) (n : Nat) : TRes (List Nat) × D :=
   | .fuel => (.fuel, d')
   | .ub => (.ub, d')
 
+/-! ### re-rooting (`rootAt` :408, `propagateDirection_` :424) -/
+
+/-- `propagateDirection_` (:424): the fathers are read once (`getFathers`, throwing for an absent
+node); first loop: the recursive call on every father, in turn, each on the graph the former
+ones left; second loop: `switchNodes(father, node)` for the same snapshot of fathers (throws when
+the relation is no longer there or the reversed one exists already — after part of the work).
+The recursion takes fuel here: outcome `fuel` = it would not return. -/
+def propagate : Nat → D → Nat → TRes (GOut Unit × D)
+  | 0, _, _ => .fuel
+  | fuel + 1, d, n =>
+    match d.g.inNeighbors n with
+    | none => .ok (.exc d.g, d)
+    | some fats =>
+      let r1 : TRes (GOut Unit × D) := fats.foldl (fun acc f =>
+        match acc with
+        | .ok (.ok _ _, d') => propagate fuel d' f
+        | other => other) (.ok (.ok () d.g, d))
+      match r1 with
+      | .ok (.ok _ _, d1) =>
+        .ok (fats.foldl (fun acc f => andThen acc (fun _ d' => d'.lift (d'.g.switchNodes f n))) (.ok () d1.g, d1))
+      | other => other
+
+/-- the `else` branch of `rootAt` (:417-420): `GlobalGraph::orientate()` (every `switchNodes` in it
+ends with `topologyHasChanged_`), then — as repaired — nothing: the rootedness flag is left to
+`isRooted()` (the unrepaired code set `isRooted_ = true`, although `orientate` leaves several
+father-less nodes in a graph that is not connected) -/
+def orient (d : D) : GOut Unit × D := d.lift d.g.orientate
+
+/-- the fuel given to `propagateDirection_` -/
+def propagateFuel (g : G) : Nat := g.nodes.length * g.nodes.length + 2
+
+/-- `rootAt` (:408): `setRoot` (throws for an absent node: nothing changed), then
+`isRooted() && isValid()` (short-circuit; both write their caches) chooses between turning round
+the relations above the new root and `orientate()` -/
+def rootAt (d : D) (n : Nat) : TRes (GOut Unit × D) :=
+  match d.setRoot n with
+  | (.exc g, d1) => .ok (.exc g, d1)
+  | (.ok _ _, d1) =>
+    let (r, d2) := d1.isRooted
+    if r then
+      let (v, d3) := d2.isValid
+      match v with
+      | .ok true => propagate (propagateFuel d3.g) d3 n
+      | .ok false => .ok d3.orient
+      | .exc => .ok (.exc d3.g, d3)
+      | .fuel => .fuel
+      | .ub => .ub
+    else .ok d2.orient
+
+/-- `getLeavesUnderNode` (:312) as the check exercises it: on a valid DAG only (no validity check in the
+C++: on a cycle reachable from the node the recursion does not return) -/
+def leavesUnderQ (d : D) (n : Nat) : TRes (List Nat) := leavesUnder d.g (d.g.nodes.length + 2) n []
+
 end D
 
 /-! ### histories -/
@@ -168,6 +222,7 @@ inductive DOp where
   | addSon (n s : Nat) | addSonE (n s e : Nat) | addFather (n f : Nat) | addFatherE (n f e : Nat)
   | removeSon (n s : Nat) | removeFather (n f : Nat) | removeSons (n : Nat) | removeFathers (n : Nat)
   | isValid | isRooted | getBelow (edges : Bool) (n : Nat)
+  | rootAt (n : Nat)
 deriving Repr
 
 namespace D
@@ -190,6 +245,7 @@ def step (d : D) : DOp → D
   | .isValid => d.isValid.2
   | .isRooted => d.isRooted.2
   | .getBelow e n => (d.getBelow e n).2
+  | .rootAt n => match d.rootAt n with | .ok r => r.2 | _ => d
 
 def run (d : D) (ops : List DOp) : D := ops.foldl step d
 end D
